@@ -4,6 +4,7 @@ import Proofs.InterpVocab
 import Proofs.InterpBSE
 import Proofs.InterpStream
 import Proofs.InterpSorted
+import Proofs.InterpPass3
 /-!
 # C13 — Log-linear interpolation is the normalised weighted product of its inputs
 
@@ -302,6 +303,45 @@ theorem pass2_on_sorted_streams {F : Type} [Field F] (E : ℚ → F) (cs : Comps
 example : Good (fun c => if c.length ≤ 2 then [7, 8] else []) (fun c => if c = [] then [1, 3] else if c = [3] then [1] else [])
     1 [3] := by
   simp [Good]
+
+/-! ## The back-off stream of pass 2 and the zip of pass 3 -/
+
+/-- `SameContext` runs — and calls `BackoffManager::Enter` — exactly for the contexts of the
+pre-order listing `ctxPre` of the context tree, in that order (the back-off events of the stream
+recursion, cf. `pass2_stream_refines`). -/
+theorem visited_contexts {W : Type} [DecidableEq W] {F : Type} [Field F]
+    (E : ℚ → F) (cs : Comps W) (V : List W) (X Y : List W → List W) (d : Nat) (c : List W) :
+    (specOut E cs V X Y d c).filterMap evCtx = ctxPre Y d c :=
+  filterMap_specOut E cs V X Y d c
+
+/-- **Pass 3.**  `backoffStream cs k` models the back-off stream of order `k` as the code produces
+it: the merged `BackoffManager` queue (n-grams the components hold below their own top order, in
+`SuffixLexicographicLess` order) is consumed against the visited contexts — skipped n-grams get a
+record, entered ones get `SameContext`'s — and `Finish()` skips the rest.  For a union closed under
+dropping the first / last word:
+* it is the `SuffixOrder`-sorted list of the union n-grams of order `k` that `hasBackoffRecord`;
+* if nothing is `stuck` it *equals* the n-gram sequence of the sorted probability stream, so
+  `ReunifyBackoff` zips every probability with the back-off of the same n-gram;
+* if an n-gram of order `k` is `stuck` it is strictly shorter: the zip throws
+  "Streams were not the same size during merging" (finding K, derived rather than postulated). -/
+theorem pass3_zip (cs : Comps Nat) (hsc : UnionSuffixClosed cs) (hpc : PrefixClosedD cs) :
+    (∀ k, 1 ≤ k → k < maxOrder cs →
+      backoffStream cs k = (probStream3 cs k).filter (hasBackoffRecord cs)) ∧
+    (stuck cs = [] → ∀ k, 1 ≤ k → k < maxOrder cs → backoffStream cs k = probStream3 cs k) ∧
+    (∀ g ∈ stuck cs, 1 ≤ g.length →
+      (backoffStream cs g.length).length < (probStream3 cs g.length).length) :=
+  ⟨fun k h1 h2 => backoffStream_eq cs hsc hpc k h1 h2,
+   fun hst k h1 h2 => backoffStream_aligned cs hsc hpc hst k h1 h2,
+   fun g hg h1 => backoffStream_short cs hsc hpc g hg h1⟩
+
+/-- the witness of finding K at the stream level: for the two components of `abort_witness` the
+bigram back-off stream is strictly shorter than the bigram probability stream -/
+theorem pass3_throws_on_witness :
+    (backoffStream witness 2).length < (probStream3 witness 2).length := by
+  have hsc : UnionSuffixClosed witness := by unfold UnionSuffixClosed; decide
+  have hpc : PrefixClosedD witness := by unfold PrefixClosedD; decide
+  have hmem : [1, 3] ∈ stuck witness := by rw [abort_witness]; simp
+  exact (pass3_zip witness hsc hpc).2.2 [1, 3] hmem (by simp)
 
 /-! ## Real numbers: the log-level statements -/
 section Real
